@@ -181,7 +181,7 @@ void h_demorgan_%(tag)s(void){
     P.generated['bf_%s.cpp' % tag] = shim
     P.generated['bf_%s.spec' % tag] = spec
     P.generated['bf_%s_h.c' % tag] = harness
-    u = P.unit(tag, 'bf_%s.cpp' % tag, specs=['bf_%s.spec' % tag], harness=['bf_%s_h.c' % tag], sroa=True)
+    u = P.unit(tag, 'bf_%s.cpp' % tag, specs=['bf_%s.spec' % tag], harness=['bf_%s_h.c' % tag], inline=True)
     for f, what, kw in jobs:
         u.contract(f, cls='P', backends=['sat', 'cvc5'], what=what, timeout=600, **kw)
     u.lemma('h_init_%s' % tag, cls='P', backends=['sat', 'cvc5'], native=False, timeout=600,
